@@ -190,6 +190,9 @@ def run(tier):
             ck.violation('trace-rejected model_pc=%s next=%s' % ((info or {}).get('model_pc'), ((info or {}).get('next_event') or {}).get('e')),
                          '[%s] TraceAudit rejects the run: %s' % (what, {k: v for k, v in (info or {}).items() if k != 'events'}),
                          {'scenario': what, 'info': info})
+    # the command line itself: the attack modes are entered only on request and --skip-rate-test reaches the audit (SshCli.tla)
+    from checks import cli
+    cli.run_leg(ck, tier)
     ck.sample({'scenario': meta[1][0], 'connections': results[1].get('nconn'), 'trace_head': audit.trace_events(results[1])[:12]})
     ck.cov['rule'] = ('TLC: FaultFamily with up to %d faults + the rate loop with every reply pattern; real runs: 3 archetypes x {standard, json, policy, make-policy} x '
                       '{rate check on, skipped}, 8 rate-test peers x 3 RTTs, a sample of the C09 fault family with the rate check on; every trace validated '
